@@ -113,6 +113,28 @@ func (g *commonGen) template(w *World, name string, b int) []Step {
 			out = append(out, Step{Kind: "recover_end", B: b, A: a, Sec: &SecretRef{Kind: "recover", A: a, Idx: -1}, Sec2: g.newPasswordFor(a)})
 		}
 		return out
+	case "recover_late_after_get":
+		// the mailed link is opened (GET) shortly before it runs out, the
+		// form is submitted after it has run out
+		D := c.RecoverDur
+		early := g.r.Dur(0, D/2)
+		if early > 9*time.Minute {
+			early = g.r.Dur(0, 9*time.Minute)
+		}
+		open := D - early - time.Second
+		if open < 0 {
+			open = 0
+		}
+		late := early + 2*time.Second + g.r.Dur(0, 5*time.Second)
+		if c.WholeSecondClock {
+			open, late = open.Round(time.Second), late.Round(time.Second)+time.Second
+		}
+		tok := &SecretRef{Kind: "recover", A: a, Idx: -1}
+		out := []Step{{Kind: "recover_start", B: b, A: a}, {Kind: "recover_end_get", B: b, A: a, Sec: tok, Gap: open}}
+		if g.r.Bool() {
+			out = append(out, Step{Kind: "recover_end_get", B: b, A: a, Sec: tok})
+		}
+		return append(out, Step{Kind: "recover_end", B: b, A: a, Sec: tok, Sec2: g.newPasswordFor(a), Gap: late})
 	case "register_flow":
 		st := g.fill(w, "register", b)
 		out := []Step{st}
